@@ -242,6 +242,11 @@ func builtinStringReplace(call FunctionCall) Value {
 	}
 
 	found := search.FindAllSubmatchIndex(target, find)
+	if global && searchObject != nil {
+		// 15.5.4.11: the search is done as in String.prototype.match, whose
+		// final, failing exec leaves lastIndex at 0.
+		searchObject.put("lastIndex", intValue(0), true)
+	}
 	if found == nil {
 		return stringValue(string(target)) // !match
 	}
@@ -284,10 +289,6 @@ func builtinStringReplace(call FunctionCall) Value {
 
 	if lastIndex != len(target) {
 		result = append(result, target[lastIndex:]...)
-	}
-
-	if global && searchObject != nil {
-		searchObject.put("lastIndex", intValue(lastIndex), true)
 	}
 
 	return stringValue(string(result))
